@@ -434,6 +434,11 @@ impl<'a> Gen<'a> {
     }
 
     fn voperand(&mut self, depth: u32, allow_strings: bool) -> ClassItem {
+        // operands whose case closure matters: properties and class escapes
+        if self.flags.i && self.cfg.allow_props && self.rng.chance(1, 4) {
+            let (k, n) = *self.rng.pick(PROPS);
+            return ClassItem::Prop(self.rng.chance(1, 3), k, n.to_string());
+        }
         if depth > 0 && self.rng.chance(1, 3) {
             let neg = self.rng.chance(1, 4);
             return ClassItem::Nested(neg, Box::new(self.vexpr(depth - 1, allow_strings && !neg)));
@@ -585,8 +590,17 @@ fn is_plain(c: u32) -> bool {
     (c >= 'a' as u32 && c <= 'z' as u32) || (c >= 'A' as u32 && c <= 'Z' as u32) || (c >= '0' as u32 && c <= '9' as u32) || c == '_' as u32
 }
 
+/// Whether `out` ends with a numeric back-reference (`\\` followed by digits): a literal digit
+/// printed next would extend it.
+fn ends_with_backref(out: &str) -> bool {
+    let t = out.trim_end_matches(|ch: char| ch.is_ascii_digit());
+    t.len() < out.len() && t.ends_with('\\')
+}
+
 pub fn print_char(out: &mut String, c: u32, f: Flags) {
-    if is_plain(c) {
+    if c >= '0' as u32 && c <= '9' as u32 && ends_with_backref(out) {
+        out.push_str(&format!("\\x{:02x}", c));
+    } else if is_plain(c) {
         out.push(char::from_u32(c).unwrap());
     } else if c < 0x80 {
         out.push_str(&format!("\\x{:02x}", c));
